@@ -41,7 +41,7 @@ def candles(n: int, tag: str = "c", offset: int = 0) -> NA:
         for c in range(1, 6):
             h = hash(("in", tag, k, c))
             RAW.add(h)
-            row.append(D(1 << k, h))
+            row.append(D(1 << k, h, "in", (tag, k, c)))
         rows.append(row)
     return NA(rows, 2)
 
@@ -99,3 +99,38 @@ def future_lead(arr: NA, offset: int = 0) -> Tuple[int, int]:
             if lead > best:
                 best, at = lead, i
     return best, at
+
+
+def valuations(n: int):
+    """adversarial candle valuations for witness evaluation: (name, f(tag, k, col) -> float)"""
+    import random
+    out = []
+
+    def make(name, closes, jitter):
+        rows = {}
+        for tag in ("c", "b"):
+            rnd = random.Random(hash((name, tag)) & 0xffff)
+            prev = closes[0]
+            for k in range(n):
+                c = closes[k] + (3.0 if tag == "b" else 0.0)
+                o = prev
+                h = max(o, c) + jitter(rnd)
+                l = min(o, c) - jitter(rnd)
+                v = float(rnd.randint(1, 9))
+                rows[(tag, k)] = (0.0, o, c, h, l, v)
+                prev = c
+        out.append((name, lambda tag, k, col, rows=rows: rows[(tag, k)][col]))
+    rnd = random.Random(11)
+    walk = [100.0]
+    for _ in range(n - 1):
+        walk.append(walk[-1] + rnd.choice([-1.0, 0.0, 0.0, 1.0]))
+    make("integer grid with ties", walk, lambda r: float(r.choice([0, 1, 1, 2])))
+    make("strictly rising", [100.0 + 0.5 * k for k in range(n)], lambda r: 0.25)
+    make("strictly falling", [200.0 - 0.5 * k for k in range(n)], lambda r: 0.25)
+    make("alternating", [100.0 + (1.0 if k % 2 else -1.0) for k in range(n)], lambda r: 0.5)
+    fl = [100.0]
+    for _ in range(n - 1):
+        fl.append(fl[-1] * (1 + rnd.uniform(-0.01, 0.01)))
+    make("random floats", fl, lambda r: r.uniform(0.01, 0.3))
+    make("double top", [100.0 + min(k % 7, 7 - k % 7) for k in range(n)], lambda r: 0.0)
+    return out
